@@ -5,6 +5,7 @@ import CookModel.Lemmas.ConvertExample
 import CookModel.Lemmas.ScaleMore
 import CookModel.Lemmas.ScaleAnalysis
 import CookModel.Lemmas.ClosingStream
+import CookModel.Lemmas.FitChoice
 /-
   C08  Scaling multiplies exactly the scalable amounts and nothing else.
 
@@ -382,5 +383,71 @@ example :
     (recipeScale Ex.conv scmExampleRecipe 3).2.ingredients = [.scaled, .fixed] ∧
     (recipeScale Ex.conv scmExampleRecipe 3).2.cookware = [.fixed] ∧
     (recipeScale Ex.conv scmExampleRecipe 3).2.timers = [.fixed] := by decide +kernel
+
+/-! ## the unit after scaling is chosen by `fit` (wave 4; Lemmas/FitChoice.lean, Lemmas/BestUnit.lean)
+
+  Scaling fits every ingredient and timer quantity (`let _ = q.fit(converter)`), so the unit text after scaling is the
+  one `ScaledQuantity::fit` chooses.  With fractions disabled on the way (the shipped configuration for metric units)
+  that is `Converter::convert(.., SameSystem)`, i.e. `best_unit`'s choice, characterised by `C09_best_unit_rule`. -/
+
+/-- **The unit of a scaled linear quantity is chosen by `best_unit`'s rule.**  A linear ingredient quantity `v` in the
+    known unit `u` whose own system's best list is not empty, fractions disabled for `u` and that list: scaling by `f`
+    leaves the quantity `Converter::convert(f·v, u, SameSystem)` — plain numbers in the unit `b` that conversion picks
+    (the largest listed unit of `u`'s system in which `f·v` passes the threshold test, else the smallest:
+    `C09_best_unit_rule`, `C09_best_unit_value_bounds` apply to this very call) — with `b`'s symbol as unit text. -/
+theorem C08_scaled_unit_rule {c : Converter Rat} (hc : c.Sound) (f : Rat)
+    (i : Ingredient (ScalableValue Rat)) (v : Value Rat) (unit : Option Str) (u : Unit Rat)
+    (hq : i.quantity = some ⟨.linear v, unit⟩) (hv : v.isText = false)
+    (hu : unitInfo c ⟨v, unit⟩ = some u)
+    (hoff : FractionsOffFor c u (u.system.getD c.defaultSystem))
+    (hne : ((c.best u.pq).conversions (u.system.getD c.defaultSystem)).entries ≠ []) :
+    ∃ value v' b, value.parts = v.parts.map (fun x => x * f) ∧
+      c.convert value (.unit u) .sameSystem = .ok (v', b) ∧
+      (scaleIngredient c f i).1.quantity = some ⟨v'.toValue, b.symbol?⟩ := by
+  obtain ⟨sv, hsv, hparts, hnt⟩ := scale_linear_value f hv
+  obtain ⟨value, hval⟩ := ofValue_ok_of_not_text hnt
+  obtain ⟨r, hr⟩ := convertToBest_ok hc value u (u.system.getD c.defaultSystem) hne
+  obtain ⟨v', b⟩ := r
+  have hinfo : unitInfo c ⟨sv, unit⟩ = some u :=
+    (unitInfo_congr c (q := ⟨v, unit⟩) (q' := ⟨sv, unit⟩) rfl).trans hu
+  refine ⟨value, v', b, by rw [ofValue_parts hval, hparts], bu_convert_of (to := .sameSystem) rfl hr, ?_⟩
+  simp only [scaleIngredient, hq, scaled_quantity_eq, hsv]
+  rw [fc_fit_off hc ⟨sv, unit⟩ u hinfo hval hr hoff]
+
+/-- **Scaling by 1 returns a fitted quantity unchanged.**  If the quantity of a linear ingredient is itself the result
+    `q` of a successful `fit` (fractions disabled on the way, lists not mixed across systems, non-negative leading
+    numbers) — e.g. it comes from a scaled recipe — then scaling by the factor 1 leaves exactly `q`: the same numbers
+    and the same unit text (`fit` is idempotent over ℚ, `fc_fit_idempotent`). -/
+theorem C08_scale_one_of_fitted {c : Converter Rat} (hc : c.Sound) (hcoh : c.SystemsCoherent)
+    (q0 q : SQuantity Rat) (u0 : Unit Rat) (hu0 : unitInfo c q0 = some u0)
+    (hoff : FractionsOffFor c u0 (u0.system.getD c.defaultSystem)) (hfit : fit c q0 = (q, .ok ()))
+    (h0 : ∀ x ∈ q0.value.parts.head?, 0 ≤ x) (h0' : ∀ x ∈ q.value.parts.head?, 0 ≤ x)
+    (i : Ingredient (ScalableValue Rat)) (hq : i.quantity = some ⟨.linear q.value, q.unit⟩) :
+    (scaleIngredient c 1 i).1.quantity = some q ∧ (scaleIngredient c 1 i).2 = .scaled := by
+  have hidem := fc_fit_idempotent hc hcoh q0 q u0 hu0 hoff hfit h0 h0'
+  obtain ⟨value, v', b, _, _, rfl⟩ := fc_fit_off_inv hc q0 q u0 hu0 hoff hfit
+  have hscale : ((ScalableValue.linear v'.toValue).scale (1 : Rat)).1 = v'.toValue := by
+    cases v' <;> simp [ScalableValue.scale, linearScale, ConvertValue.toValue, Number.value]
+  constructor
+  · simp only [scaleIngredient, hq, scaled_quantity_eq, hscale]
+    rw [hidem]
+  · cases v' <;> simp [scaleIngredient, hq, scaleOptQuantity, scaleQuantity, ScalableValue.scale, linearScale,
+      ConvertValue.toValue]
+
+/-- the side conditions hold of the shipped converter: its lists are not mixed across systems, and fractions are
+    disabled for the gram and the whole metric mass list -/
+example : (Converter.bundled Rat).SystemsCoherent := fc_systemsCoherentB (by decide +kernel)
+example : ((Converter.bundled Rat).findUnit ['g']).map
+    (fun u => decide (FractionsOffFor (Converter.bundled Rat) u (u.system.getD (Converter.bundled Rat).defaultSystem)))
+    = some true := by decide +kernel
+/-- `@flour{500%g}` ×3 with the shipped converter → `1.5 kg`, and that scaled by 1 stays `1.5 kg` -/
+example : (scaleIngredient (Converter.bundled Rat) 3
+    { name := ['f'], alias := none, quantity := some ⟨.linear (.number (.regular 500)), some ['g']⟩,
+      note := none, reference := none, relation := ⟨.definition [] true, none⟩, modifiers := .empty }).1.quantity
+    = some ⟨.number (.regular (3/2)), some ['k','g']⟩ := by decide +kernel
+example : (scaleIngredient (Converter.bundled Rat) 1
+    { name := ['f'], alias := none, quantity := some ⟨.linear (.number (.regular (3/2))), some ['k','g']⟩,
+      note := none, reference := none, relation := ⟨.definition [] true, none⟩, modifiers := .empty }).1.quantity
+    = some ⟨.number (.regular (3/2)), some ['k','g']⟩ := by decide +kernel
 
 end Cook
